@@ -56,6 +56,7 @@ ListCands(h, r) ==
   \cup (IF "Clear" \in OpsOn THEN {O0("Clear", r)} ELSE {})
   \cup (IF "Reverse" \in OpsOn THEN {O0("Reverse", r)} ELSE {})
   \cup (IF "Sort" \in OpsOn /\ n >= 1 /\ (~Sortable(h[r].e[1].k) \/ Homogeneous(h[r].e)) THEN {O0("Sort", r)} ELSE {})
+  \cup (IF "SortAny" \in OpsOn /\ n >= 1 THEN {O0("SortAny", r)} ELSE {})
   \cup (IF "SubList" \in OpsOn THEN {Op("SubList", r, i, j, None, Z, Z) : i \in Idx(n), j \in (0 - n - IdxSlack)..(n + IdxSlack)} ELSE {})
   \cup (IF "Concat" \in OpsOn THEN {Op("Concat", r, 0, j, None, Z, Z) : j \in ListsOf(h)} ELSE {})
   \cup (IF "Clone" \in OpsOn THEN {O0("Clone", r)} ELSE {})
@@ -206,7 +207,7 @@ ResolveInv ==
 (***************************************************************************)
 (* Action properties (checked on every explored edge through StepOK).      *)
 (***************************************************************************)
-Mutators == {"Add", "Insert", "Replace", "Delete", "Pop", "Clear", "Reverse", "Sort",
+Mutators == {"Add", "Insert", "Replace", "Delete", "Pop", "Clear", "Reverse", "Sort", "SortAny",
              "Set", "Unset", "ClearO", "SetTF", "UnsetTF", "GoSet", "GoAppend", "GoDelete"}
 Derivers == {"NewList", "NewListOf", "NewObject", "NewGoSlice", "NewGoMap", "Clone", "CloneO", "NativeSlice",
              "NativeDict", "NewListFrom", "NewObjectFrom", "SubList", "Concat", "Slice", "FilterAll",
@@ -223,7 +224,7 @@ EdgeOK(h, ed) ==
   IN
   /\ HeapOK(h2)
   \* a panicking single-argument list operation leaves everything unchanged (C05)
-  /\ (ed.out.p /\ o.op \in {"Insert", "Replace", "Pop", "SubList", "Pluck", "Sort"}) => h2 = h
+  /\ (ed.out.p /\ o.op \in {"Insert", "Replace", "Pop", "SubList", "Pluck", "Sort", "SortAny"}) => h2 = h
   /\ (ed.out.p /\ o.op = "Delete" /\ Len(o.ks) = 1) => h2 = h
   \* derivations leave every old cell unchanged and return a fresh reference (C09)
   /\ (o.op \in Derivers /\ ~ed.out.p) =>
